@@ -1,8 +1,9 @@
 """Second opinion from CrossHair (independent symbolic executor) on the float-free part of
 the C04 ledger step: regenerate / convert / consume with _update_state cut (its float
 thresholds make CrossHair give up; its result is re-quantified by the SymX step harness)."""
+import os
 import sys
-sys.path.insert(0, "/repo")
+sys.path.insert(0, os.environ.get("OPERON_REPO", "/repo"))
 from operon_ai.state.metabolism import ATP_Store, EnergyType
 
 ET = [EnergyType.ATP, EnergyType.GTP, EnergyType.NADH]
